@@ -5,6 +5,7 @@ import (
 	"fmt"
 	"reflect"
 	"sort"
+	"strings"
 
 	"github.com/protolambda/zrnt/eth2/beacon/altair"
 	"github.com/protolambda/zrnt/eth2/beacon/common"
@@ -298,13 +299,100 @@ type SyncInst struct {
 	msgs  map[common.Slot]map[common.ValidatorIndex]*altair.SyncCommitteeMessage
 	key   string
 	nops  int
+	// window model: what the three-slot window must hold. cur starts at the pool's initial value (max uint64, so that
+	// slot 0 is "next"). wmsgs[slot][validator] = root byte; wcon[slot]["root/subnet"] = number of contributions.
+	cur   common.Slot
+	wmsgs map[common.Slot]map[common.ValidatorIndex]byte
+	wcon  map[common.Slot]map[string]int
+}
+
+func (in *SyncInst) inWindow(s common.Slot) bool { return in.cur == s+1 || in.cur == s || in.cur+1 == s }
+
+// window reads the pool's three message buffers and three contribution buffers (unexported; reflection only reads).
+func (in *SyncInst) window() (msgs [3]map[common.ValidatorIndex]string, cons [3]map[string]int, cur common.Slot) {
+	v := reflect.ValueOf(in.p).Elem()
+	cur = common.Slot(v.FieldByName("currentSlot").Uint())
+	for i, name := range []string{"prevMsgs", "currentMsgs", "nextMsgs"} {
+		msgs[i] = map[common.ValidatorIndex]string{}
+		f := v.FieldByName(name)
+		for _, k := range f.MapKeys() {
+			m := f.MapIndex(k).Elem()
+			r := m.FieldByName("BeaconBlockRoot")
+			msgs[i][common.ValidatorIndex(k.Uint())] = fmt.Sprintf("slot=%d v=%d root=%02x", m.FieldByName("Slot").Uint(), m.FieldByName("ValidatorIndex").Uint(), r.Index(0).Uint())
+		}
+	}
+	for i, name := range []string{"prevContribs", "currentContribs", "nextContribs"} {
+		cons[i] = map[string]int{}
+		f := v.FieldByName(name)
+		for _, rk := range f.MapKeys() {
+			subs := f.MapIndex(rk)
+			for _, sk := range subs.MapKeys() {
+				cons[i][fmt.Sprintf("%02x/%d", rk.Index(0).Uint(), sk.Uint())] = subs.MapIndex(sk).Len()
+			}
+		}
+	}
+	return
+}
+
+// checkWindow: the buffers hold exactly the model's items of slots cur-1, cur, cur+1 (after a jump of more than
+// one slot the statement leaves open whether items still inside the new window survive: then only "nothing that was
+// not added for that slot", and the model adopts what is there).
+func (in *SyncInst) checkWindow(adopt bool) (fs []seqx.Finding) {
+	msgs, cons, cur := in.window()
+	if cur != in.cur {
+		return []seqx.Finding{{Sig: "C20/sync-window/current-slot", Msg: fmt.Sprintf("pool is at slot %d, expected %d", cur, in.cur)}}
+	}
+	slots := [3]common.Slot{in.cur - 1, in.cur, in.cur + 1}
+	names := [3]string{"previous", "current", "next"}
+	for i := 0; i < 3; i++ {
+		want := map[common.ValidatorIndex]string{}
+		for v, r := range in.wmsgs[slots[i]] {
+			want[v] = fmt.Sprintf("slot=%d v=%d root=%02x", slots[i], v, r)
+		}
+		wantC := in.wcon[slots[i]]
+		if wantC == nil {
+			wantC = map[string]int{}
+		}
+		if adopt {
+			for v, g := range msgs[i] {
+				if want[v] != g {
+					fs = append(fs, seqx.Finding{Sig: "C20/sync-window/foreign-message", Msg: fmt.Sprintf("%s-slot buffer (slot %d) holds %q, which was not added for that slot", names[i], slots[i], g)})
+				}
+			}
+			for k, n := range cons[i] {
+				if wantC[k] < n {
+					fs = append(fs, seqx.Finding{Sig: "C20/sync-window/foreign-contribution", Msg: fmt.Sprintf("%s-slot buffer (slot %d) holds %d contributions %s, only %d were added", names[i], slots[i], n, k, wantC[k])})
+				}
+			}
+			// adopt
+			nm := map[common.ValidatorIndex]byte{}
+			for v := range msgs[i] {
+				nm[v] = in.wmsgs[slots[i]][v]
+			}
+			in.wmsgs[slots[i]] = nm
+			nc := map[string]int{}
+			for k, n := range cons[i] {
+				nc[k] = n
+			}
+			in.wcon[slots[i]] = nc
+			continue
+		}
+		if !reflect.DeepEqual(want, msgs[i]) {
+			fs = append(fs, seqx.Finding{Sig: "C20/sync-window/messages", Msg: fmt.Sprintf("%s-slot buffer (slot %d) holds %v, the messages added for that slot and still inside the window are %v", names[i], slots[i], msgs[i], want)})
+		}
+		if !reflect.DeepEqual(wantC, cons[i]) {
+			fs = append(fs, seqx.Finding{Sig: "C20/sync-window/contributions", Msg: fmt.Sprintf("%s-slot buffer (slot %d) holds contributions %v, expected %v", names[i], slots[i], cons[i], wantC)})
+		}
+	}
+	return
 }
 
 type SyncHarness struct{}
 
 func (SyncHarness) Name() string { return "sync-committee-pool" }
 func (SyncHarness) Fresh() seqx.Instance {
-	return &SyncInst{p: pool.NewSyncCommitteePool(spec), msgs: map[common.Slot]map[common.ValidatorIndex]*altair.SyncCommitteeMessage{}}
+	return &SyncInst{p: pool.NewSyncCommitteePool(spec), msgs: map[common.Slot]map[common.ValidatorIndex]*altair.SyncCommitteeMessage{},
+		cur: ^common.Slot(0), wmsgs: map[common.Slot]map[common.ValidatorIndex]byte{}, wcon: map[common.Slot]map[string]int{}}
 }
 
 func (in *SyncInst) Enabled() []fmt.Stringer {
@@ -335,6 +423,22 @@ func (in *SyncInst) Apply(op fmt.Stringer, observe bool) (fs []seqx.Finding, out
 		s := o.Slot
 		in.slot = &s
 		outcome = "reset"
+		jump := !(in.cur == s || in.cur == s+1 || in.cur+1 == s)
+		in.cur = s
+		for k := range in.wmsgs {
+			if !in.inWindow(k) {
+				delete(in.wmsgs, k)
+			}
+		}
+		for k := range in.wcon {
+			if !in.inWindow(k) {
+				delete(in.wcon, k)
+			}
+		}
+		fs = append(fs, in.checkWindow(jump)...)
+		for i := range fs {
+			fs[i].Msg = fmt.Sprintf("%s: %s", op, fs[i].Msg)
+		}
 	case OpMsg:
 		m := &altair.SyncCommitteeMessage{Slot: o.Slot, BeaconBlockRoot: rootN(o.Root), ValidatorIndex: o.V, Signature: sigN(0x55)}
 		var err error
@@ -343,6 +447,18 @@ func (in *SyncInst) Apply(op fmt.Stringer, observe bool) (fs []seqx.Finding, out
 			return fs, "panic"
 		}
 		outcome = fmt.Sprintf("msg:%v", err == nil)
+		if in.inWindow(o.Slot) != (err == nil) {
+			add("sync-window/add-result", fmt.Sprintf("pool at slot %d: message for slot %d returned err=%v", in.cur, o.Slot, err))
+		}
+		if err == nil {
+			if in.wmsgs[o.Slot] == nil {
+				in.wmsgs[o.Slot] = map[common.ValidatorIndex]byte{}
+			}
+			in.wmsgs[o.Slot][o.V] = o.Root
+		}
+		for _, f := range in.checkWindow(false) {
+			add(strings.TrimPrefix(f.Sig, "C20/"), f.Msg)
+		}
 	case OpContrib:
 		c := &altair.SyncCommitteeContribution{Slot: o.Slot, BeaconBlockRoot: rootN(o.Root), SubcommitteeIndex: 0, AggregationBits: altair.SyncCommitteeSubnetBits{0x03}, Signature: sigN(0x66)}
 		c.SubcommitteeIndex = viewU64(o.Subnet)
@@ -352,6 +468,18 @@ func (in *SyncInst) Apply(op fmt.Stringer, observe bool) (fs []seqx.Finding, out
 			return fs, "panic"
 		}
 		outcome = fmt.Sprintf("contrib:%v", err == nil)
+		if in.inWindow(o.Slot) != (err == nil) {
+			add("sync-window/add-result", fmt.Sprintf("pool at slot %d: contribution for slot %d returned err=%v", in.cur, o.Slot, err))
+		}
+		if err == nil {
+			if in.wcon[o.Slot] == nil {
+				in.wcon[o.Slot] = map[string]int{}
+			}
+			in.wcon[o.Slot][fmt.Sprintf("%02x/%d", o.Root, o.Subnet)]++
+		}
+		for _, f := range in.checkWindow(false) {
+			add(strings.TrimPrefix(f.Sig, "C20/"), f.Msg)
+		}
 	}
 	if len(fs) > 0 {
 		return
